@@ -23,12 +23,24 @@ Definition accepted (k:xcase) (obs:tape) : bool :=
   | [] => false
   end.
 
+(* which of the read / write deadlines are armed after a trace (both clear at the start) *)
+Fixpoint armed_after (r w:bool) (tr:list hev) : bool * bool :=
+  match tr with
+  | [] => (r, w)
+  | HSetDL z :: t => armed_after (negb z) (negb z) t
+  | HSetWDL z :: t => armed_after r (negb z) t
+  | HSetRDL z :: t => armed_after (negb z) w t
+  | _ :: t => armed_after r w t
+  end.
+Definition deadlines_clear (tr:list hev) : bool := let '(r, w) := armed_after false false tr in negb r && negb w.
+
 Definition spec (k:xcase) (obs:tape) : option (N * tape) :=
   match obs with
   | ok :: tr =>
       let okb := negb (ok =? 0) in
       let tr := map hev_of tr in
-      if x_server k then
+      if okb && negb (deadlines_clear tr) then Some (173, [])   (* the connection is handed over with a deadline still armed *)
+      else if x_server k then
         if okb then (if has_close tr then Some (170, []) else None)
         else (if ends_with_close tr then None else Some (171, []))
       else
